@@ -869,10 +869,10 @@ class C16(Prop):
             f = read_vti(raw)
             real_head = f["head"].decode()
         except Malformed as e:
-            impl = {"wellformed": False}
+            impl, f = {"wellformed": False}, None
             note = f"malformed: {e}"
         except Exception as e:
-            impl = {"raises": type(e).__name__}
+            impl, f, real_head = {"raises": type(e).__name__}, None, ""
             note = str(e)[:200]
         rep = ctx.driver.call("c16.vtk", n0=n0, n1=n1, n2=n2, endian=endian, spacing=sp_tokens, head=real_head,
                               fields=[{"name": n, "data": vals} for n, vals in zip(names, case["vals"])])
